@@ -50,6 +50,46 @@ def portable(e):
     return cache[e.get_id()]
 
 
+_HEAVY = None
+
+
+def _heavy_kinds():
+    global _HEAVY
+    if _HEAVY is None:
+        names = ["Z3_OP_BSDIV", "Z3_OP_BSREM", "Z3_OP_BUDIV", "Z3_OP_BUREM", "Z3_OP_BSMOD", "Z3_OP_BSDIV_I", "Z3_OP_BSREM_I",
+                 "Z3_OP_BUDIV_I", "Z3_OP_BUREM_I", "Z3_OP_BSMOD_I"]
+        _HEAVY = set(getattr(z3, n) for n in names if hasattr(z3, n))
+    return _HEAVY
+
+
+def abstract_heavy(assertions):
+    """replace every division/remainder term and every product of two non-constant factors by a
+    fresh constant (the same term gets the same constant).  The result is an over-approximation:
+    if it is unsatisfiable so is the original; a satisfiable answer means nothing."""
+    heavy = _heavy_kinds()
+    # one normal form for the terms of the lifted code (simplified while lifting) and of the
+    # reference (built raw), so that equal operations become the same term
+    assertions = [z3.simplify(a) for a in assertions]
+    found = {}
+    seen = set()
+    stack = list(assertions)
+    while stack:
+        x = stack.pop()
+        i = x.get_id()
+        if i in seen:
+            continue
+        seen.add(i)
+        if z3.is_app(x) and z3.is_bv(x):
+            k = x.decl().kind()
+            if k in heavy or (k == z3.Z3_OP_BMUL and sum(1 for c in x.children() if not z3.is_bv_value(c)) >= 2):
+                found[i] = x
+        stack.extend(x.children())
+    if not found:
+        return None
+    pairs = [(t, z3.BitVec("abs!%d" % n, t.size())) for n, t in enumerate(found.values())]
+    return [z3.substitute(a, *pairs) for a in assertions]
+
+
 class Verdicts:
     def __init__(self, tag, tier, cross=True, dump_dir=None):
         self.tag = tag
@@ -65,8 +105,20 @@ class Verdicts:
         self.cross_undecided = 0
         self.log = []
 
-    def check(self, name, assertions, want_model=True, cross=None):
-        """-> ('sat', model) | ('unsat', None) | ('unknown', None)"""
+    def check(self, name, assertions, want_model=True, cross=None, abstract=False):
+        """-> ('sat', model) | ('unsat', None) | ('unknown', None).  abstract=True: first ask the
+        over-approximation without multiplier/divider terms; its `unsat` is a proof for the
+        original query (logged as such), anything else falls through to the exact query."""
+        if abstract:
+            ab = abstract_heavy(list(assertions))
+            if ab is not None:
+                r, _ = self.check(name + "-abstract", ab, want_model=False, cross=cross)
+                if r == "unsat":
+                    self.log[-1]["proves"] = name
+                    self.abstract_proofs = getattr(self, "abstract_proofs", 0) + 1
+                    return "unsat", None
+                if r == "unknown":
+                    self.undecided -= 1            # only the exact query counts
         s = z3.Solver()
         s.set("timeout", int(self.cap_s * 1000))
         for a in assertions:
@@ -121,4 +173,5 @@ class Verdicts:
     def summary(self):
         return {"queries": self.n, "solver_time_s": round(self.time_s, 2), "undecided": self.undecided,
                 "cvc5_cross_checked": self.cross_checked, "cvc5_undecided": self.cross_undecided,
-                "cvc5_time_s": round(self.cvc5_time_s, 2), "per_query_cap_s": self.cap_s}
+                "cvc5_time_s": round(self.cvc5_time_s, 2), "per_query_cap_s": self.cap_s,
+                "proved_on_abstraction": getattr(self, "abstract_proofs", 0)}
